@@ -1059,7 +1059,9 @@ def run(w, rep, tier):
     casadi_side(Ctx(w, CasadiIdiomReport()))
     sympy_side(Ctx(w, IdiomReport()))
     cse_order(w, IdiomReport())
-    relaxed = (value_ok or cvalue_ok) and any(o.status == "na" and "C19.value" in (o.msg or "") for o in rep.obs)
+    # vacuity guard: the value rules carry their own floor; where they have decided every construct, the idiom rules may see
+    # fewer instances than on the tree they were written for (spellings they do not read) without the verdict being empty
+    relaxed = value_ok and cvalue_ok
     # (C19.table is the idiom form of what C19.value decides for the CasADi side: when the plumbing is not recognised and the
     # value rule has decided every opcode, its count may fall to zero)
     rep.floor("C19.table", 34 if not (cvalue_ok and relaxed) else 0)
